@@ -26,13 +26,18 @@ def gen_cases(tier, seed):
         yield "tx", {"seed": rng.getrandbits(48), "profile": prof, "segwit": [True, False][i % 2]}
     for i in range(40 if q else 400):
         yield "tx_nullprev", {"seed": rng.getrandbits(48), "segwit": i % 4 != 3, "n_in": 1 if i % 3 else 2, "vout": [0xFFFFFFFF, 0xFFFFFFFF, 0][i % 3]}
+    # command line: `bits tx --decode` in all three input formats; transactions whose first/last raw bytes look like
+    # text framing (version low byte / locktime high byte in {0a,0d,20,09,00,30,78}) so that no "tidying" of raw input goes unnoticed
+    for i in range(60 if q else 900):
+        yield "cli_decode", {"seed": rng.getrandbits(48), "fmt": ["raw", "hex", "bin"][i % 3], "segwit": i % 2 == 0,
+                             "vlow": [0x0A, 0x0D, 0x20, 0x09, 0x00, 0x30, 0x78, 0x01][i % 8], "lhigh": [0x0A, 0x0D, 0x20, 0x09, 0x00, 0x30, 0x01][i % 7]}
     for i in range(1500 if q else 15000):
         yield "block", {"seed": rng.getrandbits(48), "n": 1 + i % 5, "dup": i % 4 == 0}
 
 
 def required(tier):
     return {"tx.decided": 5000, "tx.class.segwit+seq-nonfinal": 100, "trailing.one-byte-inside": 500,
-            "trailing.copy-of-tx": 500, "block.tx_decided": 400, "block.with_duplicate": 30, "tx.class.null_prevout": 30,
+            "trailing.copy-of-tx": 500, "block.tx_decided": 400, "block.with_duplicate": 30, "tx.class.null_prevout": 30, "cli.decoded": 50,
             "contract:tx_deser.ids": 500}
 
 
@@ -88,6 +93,26 @@ def _check_ids(ctx, t, raw, trailing_cls, X, where="alone"):
 def run_case(kind, params, ctx):
     import bits.blockchain as bc
     _selfcheck(ctx)
+    if kind == "cli_decode":
+        from . import clihelp
+        rng = rng_for("C04cli", params["seed"])
+        t = txgen.gen_tx(rng, "normal", params["segwit"])
+        t["version"] = (rng.getrandbits(24) << 8) | params["vlow"]
+        t["locktime"] = (params["lhigh"] << 24) | rng.getrandbits(24)
+        raw = txref.ser_tx(t)
+        r = clihelp.run(["tx", "--decode", clihelp.fmt_flag(params["fmt"])], clihelp.rep(raw, params["fmt"]))
+        d = clihelp.json_out(r["out"])
+        ctx.count("cli.decoded")
+        ctx.nontrivial()
+        edge = f"fmt:{params['fmt']}"
+        if not r["ok"] or d is None:
+            ctx.violation(f"cli/tx-decode-fails/{edge}", f"bits tx --decode ({params['fmt']} input, version {t['version']:#x}, locktime {t['locktime']:#x}): ret={r['ret']!r} out={r['out'][:80]!r}")
+            return
+        if d.get("txid") != txref.txid_of(t).hex() or d.get("wtxid") != txref.wtxid_of(t).hex():
+            ctx.violation(f"cli/tx-decode-ids-wrong/{edge}", f"version {t['version']:#x} locktime {t['locktime']:#x}: txid {d.get('txid')} (reference {txref.txid_of(t).hex()})")
+        if d.get("version") != t["version"] or d.get("locktime") != t["locktime"]:
+            ctx.violation(f"cli/tx-decode-fields-wrong/{edge}", f"version {d.get('version')} locktime {d.get('locktime')} expected {t['version']} / {t['locktime']}")
+        return
     if kind == "tx_nullprev":
         rng = rng_for("C04n", params["seed"])
         t = txgen.gen_tx(rng, "normal", params["segwit"])
